@@ -4,7 +4,7 @@ import PolyVerif.Lemmas.RebaseListing
 C16 — REBASE parsing recovers every enzyme record and decodes suppliers.
 
 `parse`, `exportJ`, `importJ` are the models of rebase.Parse, rebase.Export (as a JSON value) and
-json.Unmarshal into map[string]Enzyme (Model/Rebase.lean); `listing`, `readMap` and the
+json.Unmarshal into map[string]Enzyme (Model/Rebase.lean); `listing`, `expectedMap` and the
 decidable well-formedness predicates are the independent spec (Spec/RebaseListing.lean).  Nothing
 bounds the number of records, suppliers, prose lines or blank lines.
 -/
@@ -23,41 +23,24 @@ theorem tags_nodup : [kName, kIsoschizomers, kRecognitionSequence, kMethylationS
 
 /-! ### parsing a listing -/
 
-/-- **What Parse returns, exactly**: `Parse (listing sups recs ℓ) = readMap sups recs` for every supplier
-table, record list and layout that satisfy `wfListing`: one entry per record keyed by its name (a
-repeated name keeps the last record), the fields as written, every supplier letter decoded through
-the listing's own table — except that an EMPTY `<2>` line is returned as the list `[""]`; header
-prose, indentation (blanks and/or tabs), number and shape of blank lines, further reference lines
-and the final newline are arbitrary. -/
-theorem parse_listing_read (sups : List Supplier) (recs : List Rec) (ℓ : Layout) (h : wfListing sups recs ℓ = true) :
-    parse (listing sups recs ℓ) = .ok (readMap sups recs) :=
+/-- **Parse (listing sups recs ℓ) = expectedMap sups recs** for every supplier table, record list
+and layout that satisfy `wfListing`: one entry per record keyed by its name (a repeated name keeps
+the last record), the eight fields exactly as written — the isoschizomer list as written, none for
+an empty `<2>` line —, every supplier letter decoded through the listing's own table; header prose,
+indentation (blanks and/or tabs), number and shape of blank lines, further reference lines and the
+final newline are arbitrary.  (Until fix a3fb5a0 an empty `<2>` line came back as `[""]` and this
+statement was false of the code — former known finding C16-empty-isoschizomers.) -/
+theorem parse_listing (sups : List Supplier) (recs : List Rec) (ℓ : Layout) (h : wfListing sups recs ℓ = true) :
+    parse (listing sups recs ℓ) = .ok (expectedMap sups recs) :=
   parse_listing_core sups recs ℓ h
-
-/-- **Parse (listing sups recs ℓ) = expectedMap sups recs** — every field exactly as written.
-PARTIAL: for listings in which every record has at least one isoschizomer (`emptyIsos recs = false`).
-The statement without that hypothesis is false of the code: `empty_isoschizomers_witness`. -/
-theorem parse_listing_partial (sups : List Supplier) (recs : List Rec) (ℓ : Layout) (h : wfListing sups recs ℓ = true)
-    (hi : emptyIsos recs = false) : parse (listing sups recs ℓ) = .ok (expectedMap sups recs) := by
-  rw [parse_listing_read sups recs ℓ h, readMap_eq_expectedMap sups recs hi]
-
-/-- **Known finding C16-empty-isoschizomers**, kernel-checked on the model: a record with an empty `<2>`
-line comes back with the isoschizomer list `[""]` instead of no isoschizomers. -/
-theorem empty_isoschizomers_witness :
-    ¬ (∀ (sups : List Supplier) (recs : List Rec) (ℓ : Layout), wfListing sups recs ℓ = true →
-        parse (listing sups recs ℓ) = .ok (expectedMap sups recs)) := by
-  intro h
-  have h1 : wfListing [] [⟨['A'], [], [], [], [], [], [], [], []⟩] {} = true := by decide
-  have h2 : (parse (listing [] [⟨['A'], [], [], [], [], [], [], [], []⟩] {})
-      = .ok (expectedMap [] [⟨['A'], [], [], [], [], [], [], [], []⟩])) = False := by decide
-  exact h2 ▸ h _ _ _ h1
 
 /-- with pairwise different names the map has exactly one entry per record, in the order written -/
 theorem parse_listing_entries (sups : List Supplier) (recs : List Rec) (ℓ : Layout) (h : wfListing sups recs ℓ = true)
     (hn : namesNodup recs = true) :
-    parse (listing sups recs ℓ) = .ok (recs.map fun r => (r.name, enzymeRead sups r)) := by
-  rw [parse_listing_read sups recs ℓ h, readMap_of_nodup sups recs hn]
+    parse (listing sups recs ℓ) = .ok (recs.map fun r => (r.name, enzymeOf sups r)) := by
+  rw [parse_listing sups recs ℓ h, expectedMap_of_nodup sups recs hn]
 
-/-- the decoding used by `expectedMap` / `readMap` (`commercialAvailability = codes.map (supplierOf sups)`)
+/-- the decoding used by `expectedMap` (`commercialAvailability = codes.map (supplierOf sups)`)
 gives, for the letter of any line of the table, exactly the name written on that line -/
 theorem suppliers_decoded (sups : List Supplier) (s : Supplier) (hs : s ∈ sups) (hnd : codesNodup sups = true) :
     supplierOf sups s.code = s.name := supplierOf_mem sups s hs hnd
@@ -77,7 +60,7 @@ theorem export_roundtrip_perm (m : List (Str × Enzyme)) (hnd : (m.map (·.1)).N
 /-- the map `Parse` returns for a listing survives Export and re-import -/
 theorem parse_export_roundtrip (sups : List Supplier) (recs : List Rec) (ℓ : Layout) (h : wfListing sups recs ℓ = true) :
     ∃ m m', parse (listing sups recs ℓ) = .ok m ∧ importJ (exportJ m) = some m' ∧ m'.Perm m :=
-  ⟨_, _, parse_listing_read sups recs ℓ h, export_roundtrip _, sortedEntries_perm {} _ (readMap_keys_nodup sups recs)⟩
+  ⟨_, _, parse_listing sups recs ℓ h, export_roundtrip _, sortedEntries_perm {} _ (expectedMap_keys_nodup sups recs)⟩
 
 /-! ### non-vacuity: concrete inputs meeting the hypotheses (tests, not theorems) -/
 
@@ -94,11 +77,11 @@ def tabsLayout : Layout := { indent := ['\t'], blank := [' '], afterHeading := 1
 
 example : wfListing sampleSups sampleRecs spacesLayout = true := by decide
 example : wfListing sampleSups sampleRecs tabsLayout = true := by decide
-example : parse (listing sampleSups sampleRecs spacesLayout) = .ok (readMap sampleSups sampleRecs) := by decide
-example : parse (listing sampleSups sampleRecs tabsLayout) = .ok (readMap sampleSups sampleRecs) := by decide
-example : ((readMap sampleSups sampleRecs).map fun kv => kv.2.commercialAvailability)
+example : parse (listing sampleSups sampleRecs spacesLayout) = .ok (expectedMap sampleSups sampleRecs) := by decide
+example : parse (listing sampleSups sampleRecs tabsLayout) = .ok (expectedMap sampleSups sampleRecs) := by decide
+example : ((expectedMap sampleSups sampleRecs).map fun kv => kv.2.commercialAvailability)
     = [["Takara Bio Inc. (6/18)".toList, "New England Biolabs (3/21)".toList], []] := by decide
-example : ((readMap sampleSups sampleRecs).map fun kv => kv.2.isoschizomers)
-    = [["XmaIII".toList, "EagI".toList], [[]]] := by decide
+example : ((expectedMap sampleSups sampleRecs).map fun kv => kv.2.isoschizomers)
+    = [["XmaIII".toList, "EagI".toList], []] := by decide
 
 end PolyVerif.Props.C16
